@@ -690,3 +690,67 @@ def selfcheck_gbs(traced, reps=20, seed=0):
             if not (np.allclose(got_o, want_o, rtol=1e-13, atol=0) and np.allclose(got_f, want_f, rtol=1e-13, atol=0)):
                 bad.append(n)
     return sorted(set(bad))
+
+
+# ------------------------------------------------------------------ utils.extract_vars (C01/C09), two grains
+def _sym_clip(self, a_min=None, a_max=None, **kw):
+    """`ndarray.clip` on symbolic entries: printed with the model's `clip` / `clip0` (np.clip(x, 0, None))"""
+    out = np.empty(self.shape, dtype=object).view(SymArray)
+    for idx in np.ndindex(self.shape):
+        x = Expr.of(np.ndarray.__getitem__(self, idx))
+        if a_min is not None and a_max is not None:
+            lo, hi = float(a_min), float(a_max)
+            out[idx] = Expr(f"(clip {lit(lo)} {lit(hi)} {x.s})", lambda env, x=x, lo=lo, hi=hi: min(max(x.v(env), lo), hi))
+        elif a_max is None and float(a_min) == 0.0:
+            out[idx] = Expr(f"(clip0 {x.s})", lambda env, x=x: max(x.v(env), 0.0))
+        else:
+            raise TypeError("clip bounds the translator does not know")
+    return out
+
+
+SymArray.clip = _sym_clip
+
+
+def trace_extract(n=2):
+    from pydrex import utils as U
+
+    y = np.empty(10 * n + 9, dtype=object).view(SymArray)
+    for k in range(10 * n + 9):
+        y[k] = Expr(f"(y {k})", lambda env, k=k: env["y"][k])
+    return n, explore(lambda: U.extract_vars(y.copy(), n))
+
+
+def emit_extract(traced, path=None):
+    n, tree = traced
+    assert tree[0] == "leaf", "extract_vars is straight-line once clip is symbolic"
+    F, A, f = tree[1]
+    lines = ["-- GENERATED on every run by harness/trace/tracer.py from /repo/src/pydrex/utils.py -- do not edit",
+             "import ModelR.Update", "noncomputable section", "namespace ModelR", "",
+             f"def traced_extractVars{n} (y : Fin {10 * n + 9} → ℝ) : Mat3 × Tex :=",
+             f"  ({_mat_text(np.asarray(F, dtype=object))},",
+             "   ⟨[" + ", ".join(_mat_text(np.asarray(A[g], dtype=object)) for g in range(n)) + "],",
+             "    [" + ", ".join(Expr.of(x).s for x in f) + "]⟩)", "", "end ModelR", ""]
+    text = "\n".join(lines)
+    path = path or (GEN / "TracedExtract.lean")
+    if not path.exists() or path.read_text() != text:
+        path.write_text(text)
+    return text
+
+
+def selfcheck_extract(traced, reps=10, seed=0):
+    from pydrex import utils as U
+
+    n, tree = traced
+    rng = np.random.default_rng(seed)
+    F, A, f = tree[1]
+    for _ in range(reps):
+        yv = rng.normal(size=10 * n + 9)
+        yv[9 * n + 9:] = np.abs(yv[9 * n + 9:]) * rng.choice([1.0, -0.1], size=n) + 0.1
+        env = {"y": yv}
+        got = np.concatenate([[Expr.of(x).v(env) for x in np.asarray(F, dtype=object).ravel()],
+                              [Expr.of(x).v(env) for x in np.asarray(A, dtype=object).ravel()], [Expr.of(x).v(env) for x in f]])
+        w = U.extract_vars(yv.copy(), n)
+        want = np.concatenate([np.ravel(w[0]), np.ravel(w[1]), np.ravel(w[2])])
+        if not np.allclose(got, want, rtol=1e-13, atol=0):
+            return ["extract_vars"]
+    return []
